@@ -152,6 +152,8 @@ def to_path(eng, x):
 def install(eng, cwd):
     """pathlib.Path(...) and Path.cwd() on symbolic names; comparisons of components with literals"""
     def ctor(e, *args):
+        if not args:
+            return SPath([])
         if any(isinstance(a, (SName, SPath, C)) for a in args):
             cur = SPath([])
             for a in args:
